@@ -202,12 +202,12 @@ void run_c18(const Case &c) {
             break;
         }
         case MKCHAIN: {
-            // "any depth": one chain of 28..50 (thorough ..127) nested directories with a small file on some levels. Path needs O(1)
+            // "any depth": one chain of 28..50 (thorough ..67) nested directories with a small file on some levels. Path needs O(1)
             // descriptors whatever the depth; the comparison below runs under a limit of (open + 24)
             if (chain_done || (o.c & 0xC0) != 0) { done = false; break; }
             size_t pi = (unsigned)o.a % dirs.size();
             if (depth[pi] > 4) { done = false; break; }
-            int L = 28 + (int)((unsigned)o.b % (thorough ? 100u : 23u));
+            int L = 28 + (int)((unsigned)o.b % (thorough ? 40u : 23u));
             std::string p = nodes[dirs[pi]].path; int dd = depth[pi];
             unsigned every = 1 + (unsigned)o.c % 5;
             for (int i = 0; i < L; ++i) {
